@@ -92,11 +92,14 @@ def st_case(draw, max_ops=14):
     for _ in range(draw(st.integers(3, max_ops))):
         t = draw(st.sampled_from(["fit", "fit", "fit", "fit", "edit", "edit", "edit", "pre", "pre_bad", "refit",
                                   "refit", "rate", "emod", "getparams_edit", "repeat", "fitpre", "params_attr",
-                                  "plateau_range", "plateau_range", "range_nudge"]))
+                                  "plateau_range", "plateau_range", "range_nudge", "pre_details"]))
         if t == "params_attr":
             ops.append({"op": "params_attr", "attr": draw(st.sampled_from(["vary", "min", "max", "value", "expr", "fix_then_expr"])),
                         "name": draw(st.sampled_from(["E", "contact_point", "baseline"])),
                         "via": draw(st.sampled_from(["fit", "edit"]))})
+            continue
+        if t == "pre_details":
+            ops.append({"op": "pre_details"})
             continue
         if t == "range_nudge":
             # a second request whose interval differs by a few nm only
@@ -222,6 +225,10 @@ def do_op(idnt, op, curve):
                 idnt.fit_model(params_initial=p)
             else:
                 idnt.fit_properties["params_initial"] = p
+        elif kind == "pre_details":
+            # the same pipeline again, this time asking for the details of the steps
+            idnt.apply_preprocessing(copy.deepcopy(idnt.preprocessing), copy.deepcopy(idnt.preprocessing_options),
+                                     ret_details=True)
         elif kind == "range_nudge":
             r = list(idnt.fit_properties.get("range_x", [0, 0]))
             if r[0] == r[1] or not np.all(np.isfinite(r)):
